@@ -32,6 +32,10 @@ pub mod c03;
 pub mod c04;
 pub mod c05;
 pub mod c06;
+pub mod c08;
+pub mod c10;
+pub mod c11;
+pub mod c14;
 pub mod c15;
 pub mod c16;
 pub mod c17;
@@ -48,6 +52,10 @@ pub fn lookup(id: &str) -> Option<&'static dyn Prop> {
         "C04" => Some(&c04::C04),
         "C05" => Some(&c05::C05),
         "C06" => Some(&c06::C06),
+        "C08" => Some(&c08::C08),
+        "C10" => Some(&c10::C10),
+        "C11" => Some(&c11::C11),
+        "C14" => Some(&c14::C14),
         "C15" => Some(&c15::C15),
         "C16" => Some(&c16::C16),
         "C17" => Some(&c17::C17),
